@@ -21,21 +21,23 @@ type subTask interface {
 type subscriptions []Subscription
 
 func (s subscriptions) applyTo(d *subscriptions) {
-	*d = append(*d, s...)
+	for _, sub := range s {
+		// A filter is subscribed once; subscribing it again replaces the QoS.
+		unsubscriptions{sub.Topic}.applyTo(d)
+		*d = append(*d, sub)
+	}
 }
 
 type unsubscriptions []string
 
 func (s unsubscriptions) applyTo(d *subscriptions) {
-	l := len(*d)
 	for _, topic := range s {
-		for i, e := range *d {
-			if e.Topic == topic {
-				l--
-				(*d)[i] = (*d)[l]
-				break
+		kept := (*d)[:0]
+		for _, e := range *d {
+			if e.Topic != topic {
+				kept = append(kept, e)
 			}
 		}
+		*d = kept
 	}
-	*d = (*d)[:l]
 }
